@@ -336,6 +336,29 @@ let flusher_cuts (body : string) : string =
             | _ -> failwith "bad batch op") in
       let ops = List.map op_of (List.concat batches) in
       Printf.sprintf "%d:%s%s" th (show_batches th ops) tail
+(* the same for an operation that consists of several streams, each ended by an explicit commit:
+   [lens] = the number of operations of every stream but the last *)
+let flusher_cuts_streams (body : string) (lens : int list) : string =
+  match String.index_opt body ':' with
+  | None -> body
+  | Some i ->
+      let th = int_of_string (String.sub body 0 i) in
+      let rest = String.sub body (i + 1) (String.length body - i - 1) in
+      let zeros n = List.init n (fun _ -> N0) in
+      let batches = if rest = "" then [] else List.map (fun b -> String.split_on_char ',' b) (String.split_on_char '|' rest) in
+      let op_of (o : string) : bop0 =
+        let t = String.sub o 1 (String.length o - 1) in
+        if o.[0] = 'd' then BDel0 (zeros (int_of_string t))
+        else (match String.split_on_char '+' t with
+            | [ a; b ] -> BSet0 (zeros (int_of_string a), zeros (int_of_string b))
+            | _ -> failwith "bad batch op") in
+      let ops = List.map op_of (List.filter (fun o -> o <> "") (List.concat batches)) in
+      let rec take n l = if n <= 0 then [] else (match l with x :: r -> x :: take (n - 1) r | [] -> []) in
+      let rec drop n l = if n <= 0 then l else (match l with _ :: r -> drop (n - 1) r | [] -> []) in
+      let rec split l lens = (match lens with [] -> [ l ] | n :: r -> take n l :: split (drop n l) r) in
+      let parts = List.filter (fun p -> p <> "") (List.map (show_batches th) (split ops lens)) in
+      Printf.sprintf "%d:%s" th (String.concat "|" parts)
+
 (* the whole "wb" field from the model alone: the byte stream of the commit
    (PhysCommit.commit_bops on the FastLife mirror), cut by Flusher.fl_batches at the configured
    threshold, with the MD5 of every operation's bytes *)
@@ -787,9 +810,16 @@ let make_m1 (params : string list) : machine =
                    | _ -> "?" in
                  st := s';
                  rk := List.filter (fun w -> int_of_z w <= int_of_string v) !rk;
+                 (* the physical batches: the sizes of the recorded operations, cut by
+                    Flusher.fl_batches separately for the two streams (the first has as many
+                    operations as Store.rollback_ops) *)
+                 let wb = (try
+                             let body = section_between impl ";wb[" in
+                             if body = "-" then "-" else flusher_cuts_streams body [ List.length ops1 ]
+                           with _ -> "-") in
                  if starts_with "wl-nowrap(" impl then "wl-nowrap(ok)"
-                 else "wl(ok;ops=" ^ String.concat "," (List.map show (ops1 @ ops2)) ^ ")"
-             | _ -> st := s'; if starts_with "wl-nowrap(" impl then "wl-nowrap(err)" else "wl(err;ops=)")
+                 else "wl(ok;ops=" ^ String.concat "," (List.map show (ops1 @ ops2)) ^ ";wb[" ^ wb ^ "])"
+             | _ -> st := s'; if starts_with "wl-nowrap(" impl then "wl-nowrap(err)" else "wl(err;ops=;wb[" ^ (try section_between impl ";wb[" with _ -> "-") ^ "])")
         | [ "wprune"; n ] ->
             let impl = (match !current_expected with Some e -> e | None -> "") in
             if starts_with "wp-nowrap(" impl || impl = "" then
